@@ -42,7 +42,9 @@ RULE = ("case = (generated scenario, kill point): scenarios are seeded chains of
         "(override flow via analyze_and_overwrite_pages / process_dump with JSON and old-format inputs, plain backup_db + add_page "
         "overwrites, restore itself killed, second backup, no backup, re-run of the override flow) x start state "
         "(cleanly closed / killed with un-checkpointed WAL / both) x clean close or not, random page sets (5 namespaces, "
-        "redirects, bodies 0-30 kB); kill points = EVERY traced source line of create_db, backup_db, close_db_conn, add_page, "
+        "redirects, bodies 0-30 kB) + bulk-overwrite kinds (200-260 pages of 12-20 kB, all overwritten by ONE overwrite_pages() "
+        "transaction of 3-6 MB, with / without a preceding backup; kill points SAMPLED: 14 spread over the overwrite loop, the 8 "
+        "events around its commit line, every backup_db/close_db_conn line, every op boundary); kill points of the other kinds = EVERY traced source line of create_db, backup_db, close_db_conn, add_page, "
         "overwrite_pages, overwrite_single_page, analyze_and_overwrite_pages, add_default_templates, process_dump, "
         "init_wikidata_cache + every op boundary of the victim script + run to completion; thorough adds every "
         "pwrite64/write/rename/unlink/ftruncate/fsync/fdatasync call of the victim (strace SIGKILL injection). "
@@ -58,7 +60,8 @@ ASSUMPTIONS = [
     "a scenario step (not killed) that raises or does not return within 2 x 60 s is reported as a violation of its own "
     "(scenario-step-raises / scenario-step-hangs): the statement presupposes that backup / overwrite / close / reopen complete",
     "kill points are exhaustive per generated scenario (every traced line, every op boundary; thorough: every listed syscall); "
-    "the scenarios themselves are a seeded sample (quick 32, thorough 112)",
+    "the scenarios themselves are a seeded sample (quick 32, thorough 112); the bulk-overwrite scenarios (quick 3, thorough 12) have "
+    "~10 000 line events each and are sampled (~30-45 points each), so exhaustive is reported False",
 ]
 WALL = {"quick": 900, "thorough": 5400}
 
@@ -112,7 +115,42 @@ def plan(tier, seed):
                 sc = [6, 9, 14, 24, 40][rep % 5]
             out.append((si, kind, sc, tier == "thorough" and rep in (2, 3)))
             si += 1
+    # bulk overwrite (sampled kill points): the no-backup kind twice as often as the backup kind
+    si = 10000
+    for rep in range({"quick": 1, "thorough": 4}[tier]):
+        for kind in ("bulk-overwrite", "bulk-overwrite-backup", "bulk-overwrite"):
+            out.append((si, kind, 0, False))
+            si += 1
     return out
+
+
+BULK_SHARDS = 4
+
+
+def bulk_owner(si, idx, nsh):
+    """bulk scenarios are expensive to set up: only BULK_SHARDS shards work on one (-> rank of idx among them, or None)"""
+    if nsh <= BULK_SHARDS:
+        return idx, nsh
+    own = [(si * 5 + j * (nsh // BULK_SHARDS)) % nsh for j in range(BULK_SHARDS)]
+    return (own.index(idx), BULK_SHARDS) if idx in own else (None, BULK_SHARDS)
+
+
+def sample_points(log, seed, si):
+    """Kill points of a bulk scenario: 14 spread (seeded jitter) over the overwrite loop, the last 8 events of the
+    loop (the lines around overwrite_pages()'s commit), every line of backup_db/backup_db_path/close_db_conn and
+    every op boundary."""
+    rng = random.Random("c11-sample/%d/%d" % (seed, si))
+    loop = [k for k in range(1, len(log) + 1) if log[k - 1][0] in ("overwrite_pages", "overwrite_single_page", "add_page")]
+    sel = {k for k in range(1, len(log) + 1)
+           if log[k - 1][0] in ("backup_db", "backup_db_path", "close_db_conn") or log[k - 1][0].startswith("op:")}
+    if loop:
+        m = 14
+        for j in range(m):
+            lo = len(loop) * j // m
+            hi = max(lo + 1, len(loop) * (j + 1) // m)
+            sel.add(loop[rng.randrange(lo, hi)])
+        sel.update(loop[-8:])
+    return sorted(sel)
 
 
 def scenario(seed, si, kind, scale):
@@ -437,7 +475,7 @@ def diagnose(model, post, base, close_first):
     return needs
 
 
-def make_sig(expect, probs, needs, files):
+def make_sig(expect, probs, needs, files, model=None):
     rule, got, _ = probs[0]
     fam = "content" if "content" in rule else ("unreadable" if ("raises" in rule or "integrity" in rule) else rule)
     if needs:
@@ -445,6 +483,11 @@ def make_sig(expect, probs, needs, files):
         if "backup-file" in needs and expect == "original-or-snapshot":
             cause += "(incomplete)"
         return "restore-wrong|expect=%s|cause=%s" % (expect, cause)
+    if model is not None and model.pending and not model.in_commit and not model.in_backup \
+            and not any(f.endswith(("-wal", "-journal")) and n for f, n in files.items()):
+        # killed in the middle of a write transaction, and the dead process left no journal / write-ahead log on disk
+        # that could undo what it had already written into the database file
+        return "restore-wrong|expect=%s|cause=uncommitted-transaction-without-journal-on-disk" % expect
     detail = rule if fam != "content" else "%s:got=%s" % (rule, got)
     return "restore-wrong|expect=%s|%s|cause=unidentified" % (expect, detail)
 
@@ -542,8 +585,12 @@ class Monitor:
                 obs.count("files.backup-empty-at-kill")
         if "pages.db" not in files:
             obs.count("files.db-missing-at-kill")
-        if "pages_backup.db-journal" in files:
+        if "pages_backup.db-journal" in files or "pages_backup.db.incomplete-journal" in files:
             obs.count("files.backup-journal-at-kill")
+        if "pages_backup.db.incomplete" in files:
+            obs.count("files.incomplete-backup-copy-at-kill")
+        if files.get("pages.db-journal"):
+            obs.count("files.rollback-journal-at-kill")
         out = []
         if vexc is not None:
             sig = "scenario-step-raises|op=%s|%s" % (vexc[-1], vexc[4])
@@ -587,7 +634,7 @@ class Monitor:
         obs.maxi("rows_visible", len(res[0].get("rows", ())))
         if probs:
             needs = diagnose(model, post, case, close_first)
-            sig = make_sig(expect, probs, needs, files)
+            sig = make_sig(expect, probs, needs, files, model)
             msg = "%s; kill point %s; files at kill %s; rules: %s" % (
                 probs[0][2], point_desc, json.dumps(files), ", ".join(sorted({p[0] + "/" + p[1] for p in probs})))
             obs.violation(sig, msg, dict(casekey))
@@ -604,6 +651,11 @@ class Monitor:
     # -- one scenario -----------------------------------------------------
     def run_scenario(self, seed, tier, si, kind, scale, strace, idx, nsh, only=None):
         obs = self.obs
+        bulk = kind in S.BULK_KINDS
+        if bulk and only is None:
+            idx, nsh = bulk_owner(si, idx, nsh)
+            if idx is None:
+                return []
         scn = scenario(seed, si, kind, scale)
         sdir = os.path.join(self.base, "s%d" % si)
         os.makedirs(sdir)
@@ -658,9 +710,13 @@ class Monitor:
         self.add_anchors(rec.get("anchors"))
         obs.maxi("kill_points_per_scenario", N)
         obs.count("scenario-recordings")
+        cand = sample_points(log, seed, si) if bulk else list(range(1, N + 1))
         if only is None and (si % nsh) == idx:
             obs.count("scenarios")
-            obs.count("points.listed", N)
+            obs.count("points.listed", len(cand))
+            if bulk:
+                obs.count("scenarios.bulk")
+                obs.count("points.skipped-by-sampling", N - len(cand))
         results = []
         # the recording run is the "no kill" case (k = 0), evaluated by the shard that owns point 0
         todo = []
@@ -672,7 +728,7 @@ class Monitor:
                                   "none (victim ran to the end, %s)" % ("clean close" if scn["tags"]["close"] else "exit without close"),
                                   bool(si % 2), False)
                 results += r or []
-            todo = [k for k in range(1, N + 1) if (k + si) % nsh == idx]
+            todo = [k for j, k in enumerate(cand) if ((j if bulk else k) + si) % nsh == idx]
         elif only["mode"] == "line":
             if only["k"] == 0:
                 r = self.evaluate(tpl, rcase, dict(only), "none", bool(si % 2), False)
@@ -785,6 +841,7 @@ def exhaustive(tier, total):
     """Every listed line/op kill point of every generated scenario was executed (the scenarios themselves are a sample)."""
     c = total.get("counters", {})
     return bool(c.get("points.listed")) and c.get("points.line", 0) + c.get("points.op", 0) == c.get("points.listed") \
+        and not c.get("points.skipped-by-sampling") \
         and not total.get("inconclusive")
 
 
